@@ -279,21 +279,14 @@ func RunTree(r *vh.Run, name string, t *chainx.Tree, sched [][]int) {
 			nearTies++
 		}
 		afterTip, _ := t.Lookup(nd.CM.Tip().ID)
-		// blocks reverted by this call: on a successful move the old branch, on a failed reorg
-		// (rolled back) the blocks between the tip and the fork point with the attempted target
-		target := afterTip
+		failedTarget := -1
 		if res == "reorg-failed" {
-			target = batch[len(batch)-1]
+			failedTarget = batch[len(batch)-1]
 		}
-		if target != beforeTip && t.Blocks[target].Parent != chainx.OrphanParent {
-			anc := map[int]bool{0: true}
-			for x := target; x != 0 && x != chainx.OrphanParent; x = t.Blocks[x].Parent {
-				anc[x] = true
-			}
-			for x := beforeTip; !anc[x]; x = t.Blocks[x].Parent {
-				if d := decls[x]; d != nil && d.Unstable {
-					tainted = true
-				}
+		for _, x := range t.Reverted(beforeTip, afterTip, failedTarget) {
+			if d := decls[x]; d != nil && d.Unstable && !tainted {
+				tainted = true
+				c.KnownFrom, c.KnownClass = len(c.Ops)-1, "exp-order-after-mid-list-revert"
 			}
 		}
 		Audit(c, t, nd, res, before, beforeState, beforeTip, beforeN, tainted)
